@@ -12,7 +12,7 @@ for path in sorted(glob.glob(os.path.join(os.path.dirname(os.path.dirname(os.pat
         mt = re.search(r"[Cc]hange\**:?\**\s*(.*?)(?:\n\s*\n|\n- |\n\*\*)", text, re.S)
         note = (mt.group(1) if mt else text[:200]).replace("\n", " ").strip()
     clauses = "; ".join(sorted({(v.get("first_violation") or "").split(" ")[0].replace("clause=", "") for v in m.get("checks", {}).values()} - {""}))
-    rows.append((m["seed_id"], m["property"], ", ".join(files), note[:160], ", ".join(m.get("caught_by") or ["-"]), clauses, m.get("note", "")))
+    rows.append((m["seed_id"], m["property"], ", ".join(files), note[:260], ", ".join(m.get("caught_by") or ["-"]), clauses, m.get("strengthening", m.get("note", ""))[:200]))
 print("| Seed | Property | File | Change (abridged) | Caught by | First failing clause | Strengthening needed first |")
 print("|---|---|---|---|---|---|---|")
 for r in rows:
